@@ -237,3 +237,55 @@ def enc(v):
 
 def P(*layers):
     return {"op": "params", "layers": [enc(l) for l in layers]}
+
+
+
+def clone_point_diamond(r):
+    """Acyclic sharing placed at each point where the evaluator copies its resolution state
+    (list elements, mapping values, layers of a key, layers met during a path lookup, pieces of
+    a string, nested path pieces): the same target reached twice, directly or through aliases.
+    Returns a list of layers."""
+    tgt_kind = r.choice(["map", "list", "scalar"])
+    tgt = {"map": M([["k", "v"], ["n", I(1)]]), "list": ["x"], "scalar": "s"}[tgt_kind]
+    base = [["common", tgt]]
+    # two routes to the target: direct or via aliases of length 0-2
+    def route(name):
+        n = r.range(0, 2)
+        prev = "common"
+        out = []
+        for i in range(n):
+            a = "%s%d" % (name, i)
+            out.append([a, "${%s}" % prev])
+            prev = a
+        return out, "${%s}" % prev
+    e1, r1 = route("a")
+    e2, r2 = route("b")
+    where = r.choice(["list", "mapvals", "layers", "path_layers", "pieces", "nested_path", "layers3", "list_in_layers"])
+    L1 = M(base + e1 + e2)
+    if where == "list":
+        return [M(L1["m"] + [["t", [r1, r2, r1]]])]
+    if where == "mapvals":
+        return [M(L1["m"] + [["t", M([["p", r1], ["q", r2], ["z", M([["deep", r1]])]])]])]
+    if where == "layers":
+        if tgt_kind == "scalar":
+            return [M(L1["m"] + [["t", r1]]), M([["t", r2]])]
+        return [M(L1["m"] + [["t", r1]]), M([["t", r2]]), M([["t", r1]])]
+    if where == "layers3":
+        return [M(L1["m"] + [["p", M([["t", r1]])]]), M([["p", M([["t", r2]])]]), M([["u", "${p:t}"]])]
+    if where == "path_layers":
+        sub = "k" if tgt_kind == "map" else None
+        layers = [M(L1["m"] + [["t", r1]]), M([["t", r2]])]
+        if sub:
+            layers.append(M([["u", "${t:%s}" % sub], ["w", "x-${t:%s}" % sub]]))
+        else:
+            layers.append(M([["u", "${t}"]]))
+        return layers
+    if where == "pieces":
+        if tgt_kind == "scalar":
+            return [M(L1["m"] + [["t", "%s-%s-%s" % (r1, r2, r1)]])]
+        return [M(L1["m"] + [["t", "%s%s" % (r1, r2)]])]
+    if where == "nested_path":
+        return [M([["sel", "k"], ["sel2", "${sel}"], ["common", M([["k", "v"]])], ["t", "${common:${sel}}"], ["u", "${common:${sel2}}"],
+                   ["w", ["${common:${sel}}", "${common:${sel}}"]]])]
+    # list_in_layers
+    return [M(L1["m"] + [["t", [r1]]]), M([["t", [r2, r1]]])]
